@@ -507,6 +507,11 @@ impl<'a> G<'a> {
             } else if k == 0 {
                 // the counter: a small literal
                 es.push(E::Lit(self.rng.range(0, 6)));
+            } else if !pure_only && self.rng.pct(self.cfg.eff_args_pct / 3) && sc.vars.iter().any(|(_, vt, c)| *c && *vt == T::I) {
+                // a jump (or exit) standing where a value of any type is expected
+                let ks: Vec<usize> = sc.vars.iter().filter(|(_, vt, c)| *c && *vt == T::I).map(|(i, _, _)| *i).collect();
+                let v = self.pure(&T::I, sc, depth + 2);
+                es.push(if self.rng.pct(80) { E::Goto(*self.rng.pick(&ks), Box::new(v)) } else { E::Exit(Box::new(v)) });
             } else if !pure_only && !self.is_codata(pt) && self.rng.pct(self.cfg.eff_args_pct) {
                 es.push(self.eff(pt, sc, depth + 2));
             } else if !pure_only && self.is_codata(pt) && self.rng.pct(self.cfg.eff_codata_pct) {
@@ -530,6 +535,47 @@ impl<'a> G<'a> {
             let a = if !ints.is_empty() && self.rng.pct(60) { E::Var(*self.rng.pick(&ints)) } else { self.pure(&T::I, sc, depth + 2) };
             let next = self.eff(t, sc, depth + 1);
             return E::Print(self.rng.pct(50), Box::new(a), Box::new(next));
+        }
+        if *t == T::I && self.cfg.label_pct > 0 && self.rng.pct(7) {
+            // composite shape: a branching let-bound term (its continuation is shared by both
+            // branches and gets lifted to a definition), followed by a label whose body passes a
+            // jump to that label where a non-integer argument is expected
+            let cands: Vec<usize> = self
+                .sigs
+                .iter()
+                .enumerate()
+                .filter(|(i, s)| *i > self.cur_def && s.ret == T::I && s.params.iter().skip(1).any(|(_, pt, cv)| !*cv && *pt != T::I) && s.params.iter().all(|(_, _, cv)| !*cv))
+                .map(|(i, _)| i)
+                .collect();
+            if !cands.is_empty() {
+                let di = *self.rng.pick(&cands);
+                let sig = self.sigs[di].clone();
+                let x = self.fresh();
+                let c = self.pure(&T::I, sc, depth + 2);
+                let a = self.pure(&T::I, sc, depth + 2);
+                let b = self.pure(&T::I, sc, depth + 2);
+                let bound = E::If(self.rng.below(6), Box::new(c), None, Box::new(a), Box::new(b));
+                let mut sc2 = Scope { vars: sc.vars.clone() };
+                sc2.vars.push((x, T::I, false));
+                let l = self.fresh();
+                let mut sc3 = Scope { vars: sc2.vars.clone() };
+                sc3.vars.push((l, T::I, true));
+                let mut jumped = false;
+                let mut es = Vec::new();
+                for (k, (_, pt, _)) in sig.params.iter().enumerate() {
+                    if k == 0 {
+                        es.push(E::Lit(self.rng.range(0, 4)));
+                    } else if *pt != T::I && (!jumped || self.rng.pct(30)) {
+                        jumped = true;
+                        let v = self.pure(&T::I, &sc3, depth + 2);
+                        es.push(E::Goto(l, Box::new(v)));
+                    } else {
+                        es.push(self.pure(pt, &sc3, depth + 2));
+                    }
+                }
+                let body = E::Label(l, Box::new(E::Call(di, es)));
+                return E::Let(x, T::I, Box::new(bound), Box::new(body));
+            }
         }
         if self.rng.pct(self.cfg.eff_args_pct) {
             // effects inside operands / arguments: evaluated innermost first, left to right
